@@ -89,6 +89,8 @@ CASES += [
  ("C08np", "basic/bias.py", "            centered -= i_bias[ratings.col]\n", "", "break"),
  ("C08np", "basic/bias.py", "            np.add.at(sums, ratings.row, centered)", "            np.add.at(sums, ratings.col, centered)", "break"),
  ("C08np", "basic/bias.py", "            np.divide(sums, counts, out=u_bias, where=counts > 0)", "            np.divide(counts, sums, out=u_bias, where=sums > 0)", "break"),
+ ("C08np", "basic/bias.py", "            np.add.at(counts, ratings.col, 1)\n", "            counts += np.bincount(ratings.col, minlength=ncols)\n", "keep"),
+ ("C08np", "basic/bias.py", "            np.add.at(counts, ratings.row, 1)\n", "            counts += np.bincount(ratings.col, minlength=nrows)\n", "break"),
  ("C08np", "basic/bias.py", "        centered = ratings.data - g_bias\n", "        centered = ratings.data - g_bias\n        _logger.debug(\"centred\")\n", "keep"),
  ("C04sc", "basic/popularity.py", "        scores[mask] = self.item_scores_[inums[mask]]", "        scores[mask] = self.item_scores_[inums][mask]", "outside"),
  ("C04sc", "hpf.py", "        item_mask = item_nums >= 0", "        item_mask = item_nums > 0", "break"),
